@@ -1,6 +1,7 @@
 #pragma once
 
 #include "mod.h"
+#include <stdatomic.h>
 
 #define M_SRC_INTERNAL          1 << 7
 #define M_SRC_PRIO_MASK         (M_SRC_PRIO_HIGH << 1) - 1
@@ -48,6 +49,8 @@ typedef struct {
     m_src_pid_t pid;
 } pid_src_t;
 
+enum { TASK_IDLE, TASK_RUNNING, TASK_DONE };
+
 /* Struct that holds task to self_t mapping for poll plugin */
 typedef struct {
 #ifdef __linux__
@@ -56,6 +59,7 @@ typedef struct {
     m_src_task_t tid;
     pthread_t th;
     int retval;
+    atomic_int state;   // TASK_IDLE, TASK_RUNNING (handed to the pool), TASK_DONE (its thread is done with the source)
 } task_src_t;
 
 /* Struct that holds thresh to self_t mapping for poll plugin */
@@ -115,3 +119,4 @@ int deregister_mod_src(m_mod_t *mod, m_src_types type, void *src_data);
 ev_src_t *register_ctx_src(m_ctx_t *c, m_src_types type, process_cb proc, const void *src_data);
 int deregister_ctx_src(m_ctx_t *c, ev_src_t **src);
 int start_task(m_ctx_t *c, ev_src_t *src);
+void wait_task(ev_src_t *src);
